@@ -295,6 +295,33 @@ func c13inverses(c *core.Ctx, o *av1OBU) {
 			return
 		}
 	}
+	// one drawn OBU header byte pair: parse then marshal must give the bytes back (forbidden bit clear)
+	{
+		raw := []byte{byte(c.T.Draw(128)), byte(c.T.Draw(256))}
+		var hh *obu.Header
+		var herr error
+		var back []byte
+		if !c.Guard("obu.ParseOBUHeader", func() {
+			hh, herr = obu.ParseOBUHeader(raw)
+			if herr == nil {
+				back = hh.Marshal()
+			}
+		}) {
+			want := raw[:1]
+			if raw[0]&0x04 != 0 {
+				want = raw[:2]
+			}
+			if herr != nil || !bytes.Equal(back, want) {
+				c.Violate("obu-header", "C13/obu-header/not-inverse", "OBU header bytes %x parse (err %v) and marshal back to %x", want, herr, back)
+				return
+			}
+			if byte(hh.Type) != raw[0]>>3&0x0F || hh.HasSizeField != (raw[0]&2 != 0) || hh.Reserved1Bit != (raw[0]&1 != 0) ||
+				(hh.ExtensionHeader != nil && (hh.ExtensionHeader.TemporalID != raw[1]>>5 || hh.ExtensionHeader.SpatialID != raw[1]>>3&3 || hh.ExtensionHeader.Reserved3Bits != raw[1]&7)) {
+				c.Violate("obu-header", "C13/obu-header/fields", "OBU header bytes %x decode to %+v", want, *hh)
+				return
+			}
+		}
+	}
 	hdr := o.header(o.hasSize)
 	var h *obu.Header
 	var err error
